@@ -1,6 +1,7 @@
 package yaml
 
 import (
+	"fmt"
 	"io"
 	"os"
 
@@ -9,7 +10,7 @@ import (
 )
 
 type Compiler struct {
-	Passes []CompilerPass `yaml:"passes"`
+	Passes []*CompilerPass `yaml:"passes"`
 }
 
 type CompilerLoader struct {
@@ -62,6 +63,10 @@ func (loader *CompilerLoader) Load(reader io.Reader) (compiler.Passes, error) {
 
 	// convert compiler passes
 	for _, passConfig := range compilerConfig.Passes {
+		if passConfig == nil { // `- null` / bare `-`
+			return nil, fmt.Errorf("empty compiler pass")
+		}
+
 		pass, err := passConfig.AsCompilerPass()
 		if err != nil {
 			return nil, err
